@@ -73,6 +73,9 @@ impl NodeDrive {
     }
     pub fn storage_data_disk(db: &Database, reclame_space: bool, db_name: &String) -> u32 {
         let keys_to_update = get_keys_to_update(db, reclame_space);
+        // Metadata first: a database that has data files on disk must always find its own id
+        // again, the loader would otherwise make one up that can collide with another database
+        write_metadata_file(db_name, db);
         // The values file is created before the keys file: the loader opens the values file of
         // every keys file it finds, a crash between the two creations must not leave keys alone
         let (mut values_file, current_value_file_size) =
@@ -185,7 +188,6 @@ impl NodeDrive {
         keys_file.flush().unwrap();
         keys_file_write.flush().unwrap();
 
-        write_metadata_file(db_name, db);
         log::debug!("snapshoted {} keys", changed_keys);
         changed_keys
     }
